@@ -61,6 +61,18 @@ NEEDS = {
  "C11-d": ("append_fat_sector creates the DIFAT sector only when index > len (was >=)", "any allocation needing FAT sector number 110 (V3 file growing past ~6.8 MB): index out of bounds panic"),
  "C12-c": ("sector position cache records the target before the seek can fail", "a seek fault during a stream refill followed by an immediate retry on the same handle: data read from the old offset"),
  "C12-d": ("failed-refill cleanup moved from fill_buf into Read::read", "BufRead users (fill_buf/consume, read_until): retry after a failed refill serves the previous window's bytes"),
+ "C13-c": ("free_sector pushes the sector onto the free list before the FAT write", "fault on the FAT update while freeing the first sector of a regular chain, retried: the sector is on the free list twice and later handed to two streams"),
+ "C13-d": ("total_len resynced from the directory entry also when the write-back failed", "append buffered, write-back triggered by an out-of-buffer End-/Current-relative seek fails, seek retried: it lands too early (or panics on a debug assertion)"),
+ "C14-c": ("failed flush re-acquires the read lock while its own write guard is still alive", "a flush whose write-back fails (injected write failure, or a second handle truncating the stream): self-deadlock that also blocks all readers"),
+ "C14-d": ("set_len grows in separately locked 1 MiB steps", "one set_len growing a stream by more than 1 MiB while a reader looks at its length: intermediate lengths become visible"),
+ "C15-c": ("mini-stream container chain restarted whenever the mini stream is empty", "the cycle's small stream is the only content of the mini stream when it is released; the old container chain stays allocated"),
+ "C15-d": ("free_mini_chain_after marks END_OF_CHAIN before reading the successor: nothing is freed", "in-place shrink of a small stream by at least one whole mini sector, repeated: leaked mini sectors"),
+ "C16-c": ("strict MiniFAT sector-count check skipped when the file has no MiniFAT chain", "file without any mini stream whose header claims a MiniFAT sector count: strict accepts the deviation"),
+ "C16-d": ("FAT consistency loop runs before the FAT/DIFAT sector marks are repaired", "unmarked FAT/DIFAT sector whose stale cell looks like a live or out-of-range link: permissive rejects the documented deviation"),
+ "C17-c": ("with_dir_entry_mut skips the write when the in-memory entry is unchanged", "a setter whose write fails once and is retried with the same value: Ok, but the file keeps the old metadata (visible after reopen)"),
+ "C17-d": ("child-pointer update written as 8 bytes: zeroes the first 4 bytes of the parent's CLSID on disk", "storage / root with a CLSID, removal of the top child of its sibling tree, reopen"),
+ "C18-c": ("write_data_to_stream mini/regular decision `<` became `<=` for a flush ending exactly at 4096", "whether a flush ends exactly on 4096 depends on max_buffer_size: same history, different outcome per buffer size"),
+ "C18-d": ("Chain::write pushes the new sector id only after a successful write", "Interrupted on the first data write into a newly appended sector: the retry allocates a second sector"),
  "C18-b": ("write_clsid uses write() instead of write_all() for the 8-byte tail", "a backend that splits or interrupts exactly that <= 8-byte write"),
 }
 root = '/verif/seeded'
